@@ -34,6 +34,8 @@ pub struct Profile {
     pub values_on_insert: bool,
     /// percentage of arbitrary (non-pool) values
     pub wild_values: bool,
+    /// only values that survive a JSON round trip (no NaN / infinity), for the server API
+    pub json_safe: bool,
 }
 
 impl Profile {
@@ -59,6 +61,7 @@ impl Profile {
             max_count: 3,
             values_on_insert: true,
             wild_values: true,
+            json_safe: false,
         }
     }
 }
@@ -123,6 +126,17 @@ pub fn elem_ref(p: &Profile) -> BoxedStrategy<QId> {
 }
 
 pub fn a_value(p: &Profile) -> BoxedStrategy<Val> {
+    if p.json_safe {
+        let pool: Vec<Val> = value_pool()
+            .into_iter()
+            .filter(|v| match v {
+                Val::F64(b) => f64::from_bits(*b).is_finite(),
+                Val::VF64(v) => v.iter().all(|b| f64::from_bits(*b).is_finite()),
+                _ => true,
+            })
+            .collect();
+        return prop::sample::select(pool).boxed();
+    }
     if p.wild_values {
         pool_value().boxed()
     } else {
